@@ -749,6 +749,26 @@ func init() {
 		v := x.load(st, &Addr{prefix: elemPrefix(types.Typ[types.Byte]), keys: []*Term{p.C[0], x.tb.Add(p.C[1], i)}}, types.Typ[types.Byte])
 		return []*Val{v}, nil
 	}
+	// gocv_prefixEq(r, b []byte, n int): r[i] == b[i] for 0 <= i < n.  As a goal it is
+	// skolemised; as a hypothesis it is realised as a copy layer on the element heap (a no-op
+	// on the values, which are equal by assumption, that makes later reads syntactic).
+	intrinsics["gocv_prefixEq"] = func(x *Exec, st *State, fn *ssa.Function, args []*Val, pos token.Pos) ([]*Val, error) {
+		tb := x.tb
+		r, b, n := args[0], args[1], args[2].C[0]
+		bt := types.Typ[types.Uint8]
+		name := elemPrefix(bt)
+		if x.assume > 0 {
+			m := x.heap(st, name, 2, 8)
+			st.heaps[name] = m.Copy(r.C[0], r.C[1], n, m, b.C[0], b.C[1])
+			return []*Val{x.boolVal(tb.True)}, nil
+		}
+		x.nsym++
+		sk := tb.Var(fmt.Sprintf("sk!%d", x.nsym), 64)
+		x.skolems = append(x.skolems, sk)
+		m := x.heap(st, name, 2, 8)
+		eq := tb.Eq(m.Select(x, []*Term{r.C[0], tb.Add(r.C[1], sk)}), m.Select(x, []*Term{b.C[0], tb.Add(b.C[1], sk)}))
+		return []*Val{x.boolVal(tb.Implies(tb.And(tb.Cmp("bvsle", tb.BV(64, 0), sk), tb.Cmp("bvslt", sk, n)), eq))}, nil
+	}
 	intrinsics["gocv_strview"] = func(x *Exec, st *State, fn *ssa.Function, args []*Val, pos token.Pos) ([]*Val, error) {
 		tb := x.tb
 		b, s := args[0], args[1]
